@@ -499,3 +499,16 @@ Proof.
   pose proof registered_known_true as Hk. unfold registered_known in Hk. rewrite forallb_forall in Hk.
   specialize (Hk r Hr). destruct (migration_of_name (snd r)) as [m|]; [eauto | discriminate].
 Qed.
+
+(* ---- the template catalog: every path parses, and to at least one step (jsonpath.visit indexes path[0]) ------------- *)
+
+Definition catalog_paths_nonempty : bool :=
+  forallb (fun row : string * list string =>
+             forallb (fun p => match parse_path (dollar ++ trim_suffix star_suffix (s p)) with
+                               | Some (_ :: _) => true
+                               | _ => false
+                               end) (snd row))
+          (catalog_actions ++ catalog_routers).
+
+Lemma catalog_paths_nonempty_true : catalog_paths_nonempty = true.
+Proof. vm_compute. reflexivity. Qed.
